@@ -535,6 +535,67 @@ def run_multi(mon: Monitor, base: EBase, ctx):
         for fam, tok in toks[:3]:
             for ep_name, ep in entry_points(base, False):
                 mon.judge(base, fam, f"key of r{ri}", tok, one, jsender, rone, rs, allow, ep_name, ep, policy="all")
+    _partial_key_sets(mon, base, ctx, toks, allow, jsender, rs)
+
+
+def short_lived_key_objects(mon: Monitor, ctx):
+    """key objects that live for one call only (built from configuration per request): the right key, dropped, then a WRONG key in a new object - which
+    CPython readily allocates where the old one was - then the right one again.  What a call learnt about an object that no longer exists is worth nothing."""
+    import gc
+    j = J.load()
+    J.register_drafts()
+    pt = b"c02 short-lived keys"
+    for alg, enc in (("ECDH-1PU", "A256GCM"), ("ECDH-1PU+A128KW", "A128CBC-HS256"), ("ECDH-ES", "A128GCM"), ("ECDH-ES+A256KW", "A128GCM"), ("A128KW", "A128GCM"),
+                     ("PBES2-HS256+A128KW", "A128GCM"), ("RSA-OAEP", "A128GCM"), ("dir", "A128GCM"), ("A256GCMKW", "A128GCM")):
+        for crv in (("P-256", "X25519") if g.is_ecdh(alg) else (None,)):
+            rk, sk = g.keys_for(alg, enc, crv or "P-256")
+            rk_wrong, sk_wrong = g.keys_for(alg, enc, crv or "P-256")
+            for form in ("compact", "flattened"):
+                tok = g.make(form, enc, [(alg, rk, sk)], pt, alg_in="protected").token
+                dec = j.jwe.decrypt_compact if form == "compact" else j.jwe.decrypt_json
+                for which in (("sender", "recipient") if sk else ("recipient",)):
+                    accepted_wrong = 0
+                    for rep in range(40):
+                        ctx.ev()
+                        good_r, good_s = j.key(rk), (j.key(gen.public_jwk(sk)) if sk else None)
+                        o1 = call(dec, copy.deepcopy(tok), good_r, algorithms=[alg, enc], sender_key=good_s)
+                        del good_r, good_s
+                        bad_r = j.key(rk_wrong if which == "recipient" else rk)
+                        bad_s = (j.key(gen.public_jwk(sk_wrong if which == "sender" else sk)) if sk else None)
+                        o2 = call(dec, copy.deepcopy(tok), bad_r, algorithms=[alg, enc], sender_key=bad_s)
+                        del bad_r, bad_s
+                        if rep % 10 == 9:
+                            gc.collect()
+                        ctx.count("short_lived_key_calls", 2)
+                        if not o1.ok or o1.value.plaintext != pt:
+                            ctx.violation(f"valid-rejected:short-lived-keys:{o1.etype}", f"{alg} ({form}): the right keys in fresh objects, round {rep}: {o1.exc!r}",
+                                          {"short_lived": True, "alg": alg, "form": form})
+                            break
+                        if o2.ok:
+                            accepted_wrong += 1
+                            ctx.violation(f"accept-invalid:wrong-{which}-key-in-a-new-object@{'jwe.decrypt_compact' if form == 'compact' else 'jwe.decrypt_json'}",
+                                          f"{alg} on {crv} ({form}): after a call with the right {which} key, whose object was dropped, a call with ANOTHER {which} key in a new "
+                                          f"object returned the plaintext (round {rep})", {"short_lived": True, "alg": alg, "form": form, "which": which})
+                            break
+                    ctx.nontrivial(("short-lived", alg, crv, form, which))
+                    ctx.cell("short-lived-keys", alg, which)
+
+
+def _partial_key_sets(mon, base, ctx, toks, allow, jsender, rs):
+    """a key set that holds the keys of some recipients only (each recipient names its kid): under the default validation of all recipients the recipient
+    nobody holds a key for is not skipped - it does not yield the key"""
+    j = J.load()
+    if len(base.recs) < 2 or not all(r["key"].get("kid") for r in base.recs):
+        return
+    for drop in range(len(base.recs)):
+        kept = [r["key"] for i, r in enumerate(base.recs) if i != drop]
+        ks = j.KeySet([j.key(k) for k in kept])
+        rks = [RefKey.from_jwk(k) for k in kept]
+        for fam, tok in toks[:3]:
+            for ep_name, ep in entry_points(base, False):
+                mon.judge(base, fam.replace("single-key-for-all-recipients", "key-set-without-one-recipients-key"), f"without r{drop}", tok, ks, jsender, rks, rs, allow, ep_name, ep,
+                          policy="all")
+        ctx.count("partial_key_sets")
 
 
 PLAINS = [b"", b"x", b"0123456789abcdef", b"0123456789abcdefX", b'{"iss":"joe","sub":"42"}', bytes(range(160, 192))]
@@ -741,6 +802,10 @@ def run_shard(ctx):
                                                        "iv-truncate", "tag-extend", "nonempty-ek-direct", "zip-added", "tag-boundary-shift", "iv-boundary-shift", "whitespace-or-padding"})
     if ctx.shard == 14:
         zip_switch_outside_protected(mon, ctx)
+    if ctx.shard == 13:
+        mon.tr.stop()
+        short_lived_key_objects(mon, ctx)
+        mon.tr = Tracer(_select).start()
     if ctx.shard == 15:
         mon.tr.stop()
         long_run_cases(mon, ctx)
@@ -758,6 +823,9 @@ def replay(ctx, case):
     j = J.load()
     J.register_drafts()
     mon = Monitor(ctx)
+    if case.get("short_lived"):
+        mon.tr.stop()
+        return short_lived_key_objects(mon, ctx)
     recs = case["recs"]
     base = EBase(case["form"], case["token"], {}, b"", recs, {"enc": [a for a in case["allow"] if a in g.ENCS][0]})
     jkey, jsender = jkeys(base)
